@@ -20,6 +20,7 @@ Hypotheses, spelled out:
 Statements only; the proofs are in `IsoVerif.Lemmas.Fs*`.
 -/
 import IsoVerif.Lemmas.FsSession
+import IsoVerif.Lemmas.FsMinimal
 import IsoVerif.Gen.FsFacts
 
 namespace IsoVerif.Props.C18
@@ -68,6 +69,14 @@ theorem C18_minimal (hash : Bytes → Bytes) (old new : List (Artifact α)) (p :
       ∃ c, expectedGet new p = some (.file c) ∧
         ∀ c', expectedGet old p = some (.file c') → hash c' ≠ hash c := by
   exact minimal_artifacts hash old new p
+
+/-- … and no path is written twice: with `C18_minimal` the written paths are, as a multiset, exactly
+the paths of the new artifacts whose hash is new or differs. -/
+theorem C18_minimal_once (hash : Bytes → Bytes) (old new : List (Artifact α)) :
+    (writePaths (diff (fromArtifacts hash old) (fromArtifacts hash new))).Nodup ∧
+    ∀ p, p ∈ writePaths (diff (fromArtifacts hash old) (fromArtifacts hash new)) ↔
+      ∃ k, Op.writeFile p k ∈ diff (fromArtifacts hash old) (fromArtifacts hash new) := by
+  exact ⟨diff_writes_nodup _ _ (wf_fromArtifacts hash new), fun p => mem_writePaths _ p⟩
 
 /-- Minimality at the level of states, with the index that is written. -/
 theorem C18_minimal_state (old new : State α) (hwf : new.WF) (p : Path α) (k : Nat) :
